@@ -59,7 +59,9 @@ CONC_VARIANTS = [
 def _mk(panel, m, sym, el, i, conc=None, seed=0, max_s=800):
   name = '%s-%s-%s-e%d%s' % (panel, m, '+'.join(sym), i,
                              '-c' if conc else '')
-  return dict(func='job', name=name, kwargs=dict(
+  w = (20 if panel != 'P1' else 0) + 6 * len(sym) + (
+      4 if m == 'exhaustive' else 0) + (10 if el is None else 0)
+  return dict(func='job', name=name, weight=w, kwargs=dict(
       name=name, panel=panel, method=m, sym=list(sym), elig=el, conc=conc,
       seed=seed, max_s=max_s))
 
@@ -86,8 +88,8 @@ def jobs(tier, seed):
       for s in SIX:
         out.append(_mk('P2', m, [s], el, i))
       for pr in (PAIRS6 if tier == 'quick' else pairs_all):
-        if tier == 'quick' and i not in (0, 1, 2):
-          continue
+        if tier == 'quick' and i not in (1, 2):
+          continue   # default eligibility x pairs on 4 geos: thorough only
         out.append(_mk('P2', m, pr, el, i, max_s=2500))
     # symbolic constraint next to concrete values of others
     for ci, conc in enumerate(CONC_VARIANTS[1:]):
